@@ -20,6 +20,36 @@ func init() {
 		defer func() { corruptionSeps = []string{" "} }()
 		// string lexemes containing spaces would be changed by the separator replacement; the corpus has none with spaces inside quotes except names, which is fine for a failure sweep
 		implicitNames(r)
+		// many diagnostics in one multi-line source, each at the first column of its line or after tabs / multi-byte text
+		var ks []int
+		for k := 1; k <= 14; k++ {
+			ks = append(ks, k)
+		}
+		ks = append(ks, 16, 17, 33, 100)
+		r.Sweep("many-errors-multiline", int64(len(ks)), func(w *run.Worker, item int64) {
+			k := ks[item]
+			bad := []string{"|", "| where", "| bogus x", ")", "| take 'x'", "| join kind=zz (R) on", "\t| é ü", "| project é = ", "|| count"}
+			for _, nl := range []string{"\n", "\r\n", "\n\n"} {
+				for _, first := range []string{"T", "let é = 'ü';\tT | where s == \"日本\"", "T | where a ==", ""} {
+					for rot := 0; rot < len(bad); rot++ {
+						var sb strings.Builder
+						sb.WriteString(first)
+						for i := 0; i < k; i++ {
+							sb.WriteString(nl)
+							sb.WriteString(bad[(i+rot)%len(bad)])
+						}
+						c10FailOne(w, sb.String())
+						c10FailOne(w, sb.String()+nl+"; U | where"+nl+"| sort by")
+						if rot < 4 {
+							// the source ends inside a multi-byte sequence: positions still lie inside the source
+							for _, cut := range []string{"\xe2\x80", "\xc3", "\xf0\x9f\x98", " x == 'é' \xe2\x80", "\xff"} {
+								c10FailOne(w, sb.String()+cut)
+							}
+						}
+					}
+				}
+			}
+		})
 		b1 := tokenSweeps(r, 3, 4, c10FailOne)
 		b2 := corruptionSweep(r, c10FailOne)
 		bounds, _ := r.Extra["bounds"].(map[string]any)
